@@ -19,6 +19,15 @@ CLAIMED['C01'] = ("reference-model monitor: exact rational arrangement oracle ju
 CLAIMED['C19'] = ("runtime monitor over Forward/Reverse executions: inverse round trip within 1e-9 deg and closed-form character oracles (area element, conformality, equidistance, true scale) evaluated on central-difference Jacobians; NaN-failing comparisons",
   "Exploration by runtime monitoring: every projection is configured over a graticule of centres/origins, 15 standard-parallel pairs in both hemispheres and orders, two radii, zoom 0..30, and evaluated on graticule and PRNG points of its one-to-one domain plus the centre itself; each evaluation is judged by the inverse and by the local character its documentation states. Holds for the configurations and points observed.",
   "finite-difference Jacobians (h=1e-6 deg, tolerance 1e-5 relative); domain restricted exactly as the property's quantifier states", "DESIGN.md §3 C19")
+CLAIMED['C12'] = ("reference-model monitor: direct min/max scan over control points for Envelope(), closed-interval arithmetic for every Envelope method on an exhaustively enumerated lattice of envelopes",
+  "Exploration by runtime monitoring: generated valid geometries of every type x coordinate type with empty members give Envelope() checked for tightness, invariances and joins; all 442 lattice envelopes (ordinates in {0,1,2,3,5,8} + empty) are enumerated, every ordered pair and sampled triples are run through every exported Envelope method and compared with interval arithmetic (exact on small integers). The pair space is enumerated completely; geometries are sampled.",
+  "expected values computed in float64 on small integers (exact); geometries restricted to valid ones", "DESIGN.md §3 C12")
+CLAIMED['C13'] = ("reference-model monitor: exact integer orientation tests on the hull, brute-force exact enumeration of all hull-edge-aligned rectangles, permutation/duplication metamorphic monitor",
+  "Exploration by runtime monitoring: point multisets of 1..200 lattice points with duplicates and collinear runs (all permutations for n<=5, sampled beyond) and generated geometries of every type are passed to ConvexHull and the rotated rectangle functions; results are judged by exact type/convexity/cover/subset/idempotence tests and against the exact minimum over all edge-aligned rectangles.",
+  "lattice inputs only for exact claims; general-position inputs judged on covering within 1e-9*M", "DESIGN.md §3 C13")
+CLAIMED['C14'] = ("reference-model monitor: exact rational shoelace area/centroid and 200-bit length evaluation compared with Area/Length/Centroid, plus metamorphic invariance monitors over pairs of calls",
+  "Exploration by runtime monitoring: thousands of generated valid geometries per run (every type x coordinate type, holes, empty members, mixed collections; lattice and general-position) are measured by the library and by exact arithmetic; invariances under ring rotation, Reverse, ForceCW/CCW, permutation, Z/M changes, additivity, translation and affine transform are checked on the same executions.",
+  "tolerance 1e-9*M (M^2 for area) from the property statement; NaN fails every comparison", "DESIGN.md §3 C14")
 REASONS = {}
 hooks_commits = subprocess.run(['git','-C','/repo','log','--format=%h %s'],capture_output=True,text=True).stdout.splitlines()
 hook_commits = [l.split()[0] for l in hooks_commits if l.split(' ',1)[1].startswith('verif hook')]
